@@ -247,7 +247,7 @@ func (c Int) Erf(a ConstScalar) Scalar {
 }
 func (c Int) Erfc(a ConstScalar) Scalar {
   x := a.GetFloat64()
-  c.SetFloat64(math.Erf(x))
+  c.SetFloat64(math.Erfc(x))
   return c
 }
 func (c Int) LogErfc(a ConstScalar) Scalar {
